@@ -1,9 +1,11 @@
 (** Specification side of the composed AKAI theorem (C01): a LOGICAL image (partitions x
-    volumes x sample files with their header fields and PCM bytes), an ALLOCATION (which
-    sectors, in chain order, every file and every volume directory occupies), the validity
-    predicate relating them, a total SERIALISER producing the image bytes in the on-disc
-    format (written from the format description, following harness/akai_writer.py - it shares
-    nothing with the parser model but the constants), and the EXPECTED export.
+    volumes - each in a volume-table SLOT of its own, the other slots inactive - x directory
+    entries: sample files with their header fields and PCM bytes, and GHOSTS, i.e. directory
+    slots that are not sample files), an ALLOCATION (which sectors, in chain order, every
+    entry and every volume directory occupies), the validity predicate relating them, a total
+    SERIALISER producing the image bytes in the on-disc format (written from the format
+    description, following harness/akai_writer.py - it shares nothing with the parser model
+    but the constants), and the EXPECTED export.
     No proofs here: the composed theorem is in AkaiCompose.v. *)
 From SE Require Import Base Codecs Fat Cue Names Transcode AkaiImage.
 
@@ -40,11 +42,32 @@ Record lsample := {
   ls_loops : list (Z * Z * Z * Z);     (* 8 x (at, fine, coarse, duration) *)
   ls_rate : Z;
   ls_pcm : list Z }.                   (* 2 * count bytes *)
-Record lvolume := { lv_name : list Z; lv_type : Z; lv_files : list lsample }.
-Record lpartition := { lp_sectors : Z; lp_vols : list lvolume }.
+(** a GHOST: a directory slot that is not a sample file - a deleted entry (type byte 0), an
+    entry of a type the tool does not know (0xF8, 0x74, ...), or a drum / QL / effects file
+    (100 / 113 / 120), which the tool lists internally but never exports.  Program files
+    (112 / 240) are NOT covered: the tool parses their content. *)
+Record lghost := {
+  lg_raw_name : list Z;                (* the 12 stored name bytes, as they are: any bytes *)
+  lg_type : Z;                         (* directory type byte: not 115 | 243 | 112 | 240 *)
+  lg_size : Z;                         (* the directory's 3-byte size field: any value *)
+  lg_data : list Z }.                  (* the bytes its chain holds (may be empty) *)
+Inductive lentry := LSample (f : lsample) | LGhost (g : lghost).
+Fixpoint samples_of (es : list lentry) : list lsample :=
+  match es with
+  | [] => []
+  | LSample f :: t => f :: samples_of t
+  | LGhost _ :: t => samples_of t
+  end.
+(** a volume: its directory slots in directory order; [lv_files] are the samples among them *)
+Record lvolume := { lv_name : list Z; lv_type : Z; lv_entries : list lentry }.
+Definition lv_files (V : lvolume) : list lsample := samples_of (lv_entries V).
+(** a partition: [lp_slots] gives, for each volume in order, its slot (0..99) in the volume
+    table; every other slot of the table is inactive *)
+Record lpartition := { lp_sectors : Z; lp_slots : list Z; lp_vols : list lvolume }.
 Definition limage := list lpartition.
 
 (** * The allocation: sectors in chain order *)
+(** [av_files]: one sector list per directory ENTRY (sample or ghost), in directory order *)
 Record avolume := { av_dir : list Z; av_files : list (list Z) }.
 Definition apartition := list avolume.          (* one per volume, in order *)
 Definition allocation := list apartition.       (* one per partition, in order *)
@@ -59,20 +82,28 @@ Definition sample_header (f : lsample) : list Z :=
   concat (map loop_bytes (ls_loops f)) ++ [0; 0; 0; 0] ++ le16 (ls_rate f).
 Definition file_body (f : lsample) : list Z := sample_header f ++ ls_pcm f.
 
-(** 24-byte directory entry *)
-Definition dir_entry (f : lsample) (secs : list Z) : list Z :=
-  akai_pad_name (ls_name f) ++ [0; 0; 0; 0] ++ [ls_type f] ++ le24 (zlen (file_body f)) ++
+(** the four fields of a directory entry, and the bytes its chain holds *)
+Definition entry_name_bytes (e : lentry) : list Z :=
+  match e with LSample f => akai_pad_name (ls_name f) | LGhost g => lg_raw_name g end.
+Definition entry_type (e : lentry) : Z := match e with LSample f => ls_type f | LGhost g => lg_type g end.
+Definition entry_size (e : lentry) : Z :=
+  match e with LSample f => zlen (file_body f) | LGhost g => lg_size g end.
+Definition entry_body (e : lentry) : list Z := match e with LSample f => file_body f | LGhost g => lg_data g end.
+
+(** 24-byte directory entry (an entry without sectors has first sector 0) *)
+Definition dir_entry (e : lentry) (secs : list Z) : list Z :=
+  entry_name_bytes e ++ [0; 0; 0; 0] ++ [entry_type e] ++ le24 (entry_size e) ++
   le16 (hd 0 secs) ++ [0; 0].
 Definition END_ENTRY : list Z := zrepeat 0 8 ++ le16 TABLE_END_FLAG ++ zrepeat 0 14.
 Definition dir_table (V : lvolume) (AV : avolume) : list Z :=
-  concat (map (fun fa => dir_entry (fst fa) (snd fa)) (combine (lv_files V) (av_files AV))) ++ END_ENTRY.
+  concat (map (fun ea => dir_entry (fst ea) (snd ea)) (combine (lv_entries V) (av_files AV))) ++ END_ENTRY.
 
 (** * Placement: what lies in every sector, and the allocation-table word of every sector *)
 Record item := { it_dir : bool; it_secs : list Z; it_data : list Z }.
 Definition vol_items (V : lvolume) (AV : avolume) : list item :=
   {| it_dir := true; it_secs := av_dir AV; it_data := dir_table V AV |} ::
-  map (fun fa => {| it_dir := false; it_secs := snd fa; it_data := file_body (fst fa) |})
-      (combine (lv_files V) (av_files AV)).
+  map (fun ea => {| it_dir := false; it_secs := snd ea; it_data := entry_body (fst ea) |})
+      (combine (lv_entries V) (av_files AV)).
 Definition part_items (P : lpartition) (AP : apartition) : list item :=
   concat (map (fun va => vol_items (fst va) (snd va)) (combine (lp_vols P) AP)).
 
@@ -116,9 +147,20 @@ Definition sat_words (items : list item) : list Z :=
 Definition vol_entry_bytes (V : lvolume) (AV : avolume) : list Z :=
   akai_pad_name (lv_name V) ++ le16 (lv_type V) ++ le16 (hd 0 (av_dir AV)).
 Definition EMPTY_VOL_ENTRY : list Z := akai_pad_name [] ++ [0; 0; 0; 0].
+(** the volume stored in slot [i] of the table, if any *)
+Fixpoint slot_lookup {A} (i : Z) (slots : list Z) (vas : list A) : option A :=
+  match slots, vas with
+  | s :: st, va :: vt => if s =? i then Some va else slot_lookup i st vt
+  | _, _ => None
+  end.
+Definition vol_slot_bytes (P : lpartition) (AP : apartition) (i : Z) : list Z :=
+  match slot_lookup i (lp_slots P) (combine (lp_vols P) AP) with
+  | Some va => vol_entry_bytes (fst va) (snd va)
+  | None => EMPTY_VOL_ENTRY
+  end.
+(** 100 slots: the volume's entry where a volume sits, an inactive entry (type 0) elsewhere *)
 Definition vol_table (P : lpartition) (AP : apartition) : list Z :=
-  concat (map (fun va => vol_entry_bytes (fst va) (snd va)) (combine (lp_vols P) AP)) ++
-  concat (repeat EMPTY_VOL_ENTRY (100 - length (lp_vols P))).
+  concat (map (vol_slot_bytes P AP) (zfrom 0 100)).
 Definition checksum_bytes (n : Z) : list Z :=
   let x := n / 128 - 1 in [if x mod 2 =? 0 then 85 else 213; (x / 2 + 186) mod 256].
 Definition part_header (P : lpartition) (AP : apartition) : list Z :=
@@ -158,18 +200,38 @@ Definition dir_secs (items : list item) : list Z :=
 
 Definition file_alloc_ok (f : lsample) (secs : list Z) : Prop :=
   sample_ok f /\ secs <> [] /\ zlen (file_body f) <= SECTOR * zlen secs.
+(** a ghost: 12 name BYTES of any value whose bytes 8-9 do not spell the end-of-table mark
+    (valid AKAI text never does), a type byte that is neither a sample's nor a program's, any
+    3-byte size, any content that fits its sectors (no sector at all is allowed); a drum / QL /
+    effects file (types the tool follows the chain of) has at least one sector *)
+Definition ghost_ok (g : lghost) : Prop :=
+  zlen (lg_raw_name g) = 12 /\ Forall is_byte (lg_raw_name g) /\
+  znth 0 (lg_raw_name g) 8 + 256 * znth 0 (lg_raw_name g) 9 <> TABLE_END_FLAG /\
+  is_byte (lg_type g) /\ ~ In (lg_type g) [115; 243; 112; 240] /\
+  0 <= lg_size g < 16777216 /\ Forall is_byte (lg_data g).
+Definition ghost_alloc_ok (g : lghost) (secs : list Z) : Prop :=
+  ghost_ok g /\ zlen (lg_data g) <= SECTOR * zlen secs /\
+  (In (lg_type g) [100; 113; 120] -> secs <> []).
+Definition entry_alloc_ok (e : lentry) (secs : list Z) : Prop :=
+  match e with LSample f => file_alloc_ok f secs | LGhost g => ghost_alloc_ok g secs end.
+(** the slots of the volumes: strictly increasing, inside 0..99 *)
+Fixpoint increasing_from (lo : Z) (l : list Z) : Prop :=
+  match l with [] => True | s :: t => lo <= s /\ increasing_from (s + 1) t end.
+Definition slots_ok (slots : list Z) : Prop :=
+  increasing_from 0 slots /\ Forall (fun s => s < 100) slots.
 Definition vol_alloc_ok (items : list item) (V : lvolume) (AV : avolume) : Prop :=
   name_ok (lv_name V) /\ (lv_type V = 1 \/ lv_type V = 3) /\
-  length (av_files AV) = length (lv_files V) /\
+  length (av_files AV) = length (lv_entries V) /\
   (* the directory is a run of consecutive sectors, long enough for the table, not adjacent
      to another reserved-flag run (or to the header's): they would read as one run *)
   (exists d k, av_dir AV = zfrom d (S k) /\ 4 <= d /\
-               24 * (zlen (lv_files V) + 1) <= SECTOR * Z.of_nat (S k) /\
+               24 * (zlen (lv_entries V) + 1) <= SECTOR * Z.of_nat (S k) /\
                ~ In (d - 1) (dir_secs items) /\ ~ In (d + Z.of_nat (S k)) (dir_secs items)) /\
-  Forall (fun fa => file_alloc_ok (fst fa) (snd fa)) (combine (lv_files V) (av_files AV)).
+  Forall (fun ea => entry_alloc_ok (fst ea) (snd ea)) (combine (lv_entries V) (av_files AV)).
 Definition part_alloc_ok (P : lpartition) (AP : apartition) : Prop :=
   3 <= lp_sectors P <= SAT_ENTRIES /\
-  length AP = length (lp_vols P) /\ (length (lp_vols P) <= 100)%nat /\
+  length AP = length (lp_vols P) /\
+  length (lp_slots P) = length (lp_vols P) /\ slots_ok (lp_slots P) /\
   NoDup (all_secs (part_items P AP)) /\
   Forall (fun s => 3 <= s < lp_sectors P) (all_secs (part_items P AP)) /\
   Forall (fun va => vol_alloc_ok (part_items P AP) (fst va) (snd va)) (combine (lp_vols P) AP).
@@ -208,6 +270,39 @@ Definition partition_export_names (n : nat) : res (list (list Z)) :=
   make_export_names (map (fun i => (partition_name i, false)) (seq 0 n)).
 Definition partition_letters (n : nat) : list (list Z) := map (fun i => [65 + Z.of_nat i]) (seq 0 n).
 
+(** * The first version of this specification as a special case: the volumes PACKED into
+    slots 0 .. n-1 of the volume table, and sample files only.  [image_alloc_ok_v1] is that
+    version's validity predicate (word for word, [lv_files] being all there was in a volume);
+    for such images the serialiser above writes what that version's serialiser wrote:
+    the volume entries first, then 100-n inactive entries; one directory entry per file. *)
+Definition volume_ghost_free (V : lvolume) : Prop := lv_entries V = map LSample (lv_files V).
+Definition partition_v1 (P : lpartition) : Prop :=
+  lp_slots P = zfrom 0 (length (lp_vols P)) /\ Forall volume_ghost_free (lp_vols P).
+Definition image_v1 (L : limage) : Prop := Forall partition_v1 L.
+Definition vol_alloc_ok_v1 (items : list item) (V : lvolume) (AV : avolume) : Prop :=
+  name_ok (lv_name V) /\ (lv_type V = 1 \/ lv_type V = 3) /\
+  length (av_files AV) = length (lv_files V) /\
+  (exists d k, av_dir AV = zfrom d (S k) /\ 4 <= d /\
+               24 * (zlen (lv_files V) + 1) <= SECTOR * Z.of_nat (S k) /\
+               ~ In (d - 1) (dir_secs items) /\ ~ In (d + Z.of_nat (S k)) (dir_secs items)) /\
+  Forall (fun fa => file_alloc_ok (fst fa) (snd fa)) (combine (lv_files V) (av_files AV)).
+Definition part_alloc_ok_v1 (P : lpartition) (AP : apartition) : Prop :=
+  3 <= lp_sectors P <= SAT_ENTRIES /\
+  length AP = length (lp_vols P) /\ (length (lp_vols P) <= 100)%nat /\
+  NoDup (all_secs (part_items P AP)) /\
+  Forall (fun s => 3 <= s < lp_sectors P) (all_secs (part_items P AP)) /\
+  Forall (fun va => vol_alloc_ok_v1 (part_items P AP) (fst va) (snd va)) (combine (lp_vols P) AP).
+Definition image_alloc_ok_v1 (L : limage) (A : allocation) : Prop :=
+  length A = length L /\ Forall (fun pa => part_alloc_ok_v1 (fst pa) (snd pa)) (combine L A).
+Definition vol_table_v1 (P : lpartition) (AP : apartition) : list Z :=
+  concat (map (fun va => vol_entry_bytes (fst va) (snd va)) (combine (lp_vols P) AP)) ++
+  concat (repeat EMPTY_VOL_ENTRY (100 - length (lp_vols P))).
+Definition dir_entry_v1 (f : lsample) (secs : list Z) : list Z :=
+  akai_pad_name (ls_name f) ++ [0; 0; 0; 0] ++ [ls_type f] ++ le24 (zlen (file_body f)) ++
+  le16 (hd 0 secs) ++ [0; 0].
+Definition dir_table_v1 (V : lvolume) (AV : avolume) : list Z :=
+  concat (map (fun fa => dir_entry_v1 (fst fa) (snd fa)) (combine (lv_files V) (av_files AV))) ++ END_ENTRY.
+
 (** * A small example: one partition of 9 sectors, one volume "VOL 1" (directory in sector 4),
     two files: "KICK" (3 words, window 1..3, stored 0 rate) in sector 6, and "SNARE.1"
     (4100 words, two sectors stored BACKWARDS: 8 then 7). *)
@@ -222,5 +317,32 @@ Definition ex_snare : lsample :=
      ls_loops := ex_loops; ls_rate := 22050;
      ls_pcm := map (fun i => Z.of_nat i mod 251) (seq 0 (Z.to_nat 8200)) |}.
 Definition ex_logical : limage :=
-  [{| lp_sectors := 9; lp_vols := [{| lv_name := [86; 79; 76; 32; 49]; lv_type := 3; lv_files := [ex_kick; ex_snare] |}] |}].
+  [{| lp_sectors := 9; lp_slots := [0];
+      lp_vols := [{| lv_name := [86; 79; 76; 32; 49]; lv_type := 3; lv_entries := [LSample ex_kick; LSample ex_snare] |}] |}].
 Definition ex_alloc : allocation := [[{| av_dir := [4]; av_files := [[6]; [8; 7]] |}]].
+
+(** * A second example, with holes in the volume table and ghosts: one partition of 40 sectors,
+    three volumes in slots 0, 2 and 99.
+    "FIRST" (directory in sector 5): "KICK" in sector 9; a DELETED entry (type 0, garbage name
+    bytes, 300 bytes left behind in sector 11); "SNARE.1" stored backwards in sectors 14 then 13.
+    "THIRD" (directory in sectors 20-21): a DRUM file (type 100) also named "KICK", 10 bytes in
+    sector 30 with a size field of 5000; then the sample "KICK" in sector 25.
+    "LAST" (directory in sector 38): an entry of unknown type 0xF8 without any sector. *)
+Definition ghost_named (n : list Z) (ty size : Z) (data : list Z) : lghost :=
+  {| lg_raw_name := akai_pad_name n; lg_type := ty; lg_size := size; lg_data := data |}.
+Definition ex_deleted : lghost :=
+  {| lg_raw_name := [200; 255; 0; 41; 10; 10; 99; 7; 71; 214; 1; 2]; lg_type := 0; lg_size := 300;
+     lg_data := map (fun i => (7 * Z.of_nat i) mod 256) (seq 0 300) |}.
+Definition ex_drum : lghost := ghost_named [75; 73; 67; 75] 100 5000 [1; 2; 3; 4; 5; 6; 7; 8; 9; 10].
+Definition ex_unknown : lghost := ghost_named [88] 248 0 [].
+Definition ex2_logical : limage :=
+  [{| lp_sectors := 40; lp_slots := [0; 2; 99];
+      lp_vols := [{| lv_name := [70; 73; 82; 83; 84]; lv_type := 3;
+                     lv_entries := [LSample ex_kick; LGhost ex_deleted; LSample ex_snare] |};
+                  {| lv_name := [84; 72; 73; 82; 68]; lv_type := 1;
+                     lv_entries := [LGhost ex_drum; LSample ex_kick] |};
+                  {| lv_name := [76; 65; 83; 84]; lv_type := 3; lv_entries := [LGhost ex_unknown] |}] |}].
+Definition ex2_alloc : allocation :=
+  [[{| av_dir := [5]; av_files := [[9]; [11]; [14; 13]] |};
+    {| av_dir := [20; 21]; av_files := [[30]; [25]] |};
+    {| av_dir := [38]; av_files := [[]] |}]].
